@@ -89,6 +89,12 @@ def crosscheck(chk, disp, cases, name):
             for after, mine in zip(a1, arrays):
                 if mine is not None and not np.array_equal(np.asarray(after), mine):
                     ok = False
+        if not ok and kind == "ub":
+            # the interpreter hit a safety obligation that is false for this concrete input (an
+            # out-of-bounds read, a wrapping store, ...) while the real function carried on: that is
+            # the code's undefined behaviour on a legal input, not an encoder fault
+            chk.violation("%s:safety-on-a-concrete-input" % name, {"verdict": "refuted", "detail": "safety obligation %s is false on this input" % (val,)}, {"key": "%s%r" % (name, tuple(a if not isinstance(a, np.ndarray) else "array" for a in args)), "function": name, "observed": "the real function returned %r although %s is violated" % (real, val), "expected": "no undefined behaviour", "how": "concrete interpretation of the typed IR next to the real function"})
+            return False
         if not ok:
             chk.crosscheck["mismatches"] += 1
             chk.errors.append(
